@@ -25,6 +25,11 @@ REQUIRED_HOOKS = [
     "op:cache_clear",
     "op:tf_session",
     "op:localgrid",
+    "op:ang_size_degree",
+    "request:size-with-explicit-degree",
+    "request:size-alone-default-degree",
+    "warmup:via-AngularGrid",
+    "warmup:via-AtomGrid-shells",
     "op:sph",
     "edit:introspected-attribute",
     "construct:all-defaults",
@@ -35,7 +40,7 @@ REQUIRED_HOOKS = [
     "observe:cache-off",
     "cache-walk",
 ]
-REQUIRED_FAMILIES = ["aliasing-witness", "transform-reuse", "mixed", "angular-edit", "atom-mol", "transform", "tables"]
+REQUIRED_FAMILIES = ["aliasing-witness", "size-overrides-degree", "transform-reuse", "mixed", "angular-edit", "atom-mol", "transform", "tables"]
 BUDGET = {"quick": 400, "thorough": 3600}
 RULE = (
     "One case = one random HISTORY of 10-40 operations executed on the real library inside a worker process whose module-level "
@@ -59,6 +64,12 @@ RULE = (
     "different methods, interleaved with in-place sentinel edits of arrays RETURNED by earlier calls and in-place admissible changes of the ARGUMENT array; after every "
     "step every method is called again with the same objects (random order) and must equal, bit for bit, a fresh instance (same b) evaluated on a COPY of the current "
     "values (family transform-reuse: 12 classes x 6 (quick) / 60 (thorough) such sessions, deterministic class coverage); "
+    "size/degree requests (op ang_size_degree + deterministic family size-overrides-degree: 4 methods x warm-up kind x warm-up route): the cache is warmed with exactly one "
+    "degree of a method (supported, unsupported -> resolved upwards, or the default 50; through AngularGrid(cache=True) or through AtomGrid shells), then grids are requested by "
+    "size= alone (default degree) and by size= TOGETHER with an explicit degree (the warmed one, its resolved value, another supported or unsupported one; positional or keyword, "
+    "Python or NumPy int) with cache on and off - the result must report the size-resolved row and equal its shipped file AND the reference produced by a COLD process "
+    "(fresh interpreter, cache=False throughout, one per worker at start-up); re-constructions after edits also mix size= with an earlier (cached) degree; AtomGrid sizes= is "
+    "also given together with an (ignored) degrees list; "
     "load_atomic_gaussian_params(symbol|number); get_cov_radii; <METHOD>_CACHE.clear(). "
     "After EVERY operation: (a) structural walk of the discovered module-level caches against the shipped files (evidence; a corrupt "
     "entry aims an API observation at it); (b) deciding, API only: the objects the operation concerns are constructed again with cache on AND "
@@ -71,6 +82,8 @@ RULE = (
     "not, runs first in every tier). A history is non-trivial when at least one deciding comparison was made."
 )
 ASSUMPTIONS = [
+    "when both degree and size are given, size decides (AngularGrid docstring: 'If both degree and size are given, size is used'); the cold-process reference is the library's own answer "
+    "in a fresh interpreter that never caches (second reference next to the shipped file, not a replacement for it)",
     "model of an angular grid = the shipped npz read by the harness (weights x 4pi for lebedev/spherical); exactness of those files is C02's subject",
     "scale b of a b-inferring transform = maximum of the first array passed to a method whose result depends on b (for LinearInfiniteRTransform deriv2/deriv3 "
     "are identically zero and do not depend on b: the workload never uses them as the first call on an instance without b)",
@@ -88,13 +101,13 @@ TECHNIQUE = "runtime monitoring: history monitor with absolute reference model (
 METHODS = ["lebedev", "spherical", "maxdet", "ahrens_beylkin"]
 SIZE_CAP_ANG = {"lebedev": 1202, "spherical": 1000, "maxdet": 1700, "ahrens_beylkin": 800}
 SIZE_CAP_SHELL = {"lebedev": 350, "spherical": 330, "maxdet": 400, "ahrens_beylkin": 320}
-OPS = ["ang_new", "edit", "atom_new", "shell", "integrate", "mol_new", "tf_new", "tf_call", "gauss", "cov", "cache_clear", "tf_session", "localgrid", "sph"]
+OPS = ["ang_new", "edit", "atom_new", "shell", "integrate", "mol_new", "tf_new", "tf_call", "gauss", "cov", "cache_clear", "tf_session", "localgrid", "sph", "ang_size_degree"]
 WEIGHTS = {
-    "mixed": [5, 7, 3, 3, 2, 1, 1.5, 4, 2, 1, 0.4, 2, 1, 0.7],
-    "angular-edit": [8, 8, 1, 1, 1, 0, 0, 0, 0, 0, 0.6, 0, 0.7, 0],
-    "atom-mol": [2, 8, 5, 4, 2, 2.5, 0, 0, 0, 0, 0.3, 0, 1.5, 1],
-    "transform": [0.5, 3, 0, 0, 0, 0, 2, 8, 0, 0, 0, 5, 0, 0],
-    "tables": [0.5, 5, 0, 0, 0, 0, 0, 0, 5, 3, 0, 0, 0, 0],
+    "mixed": [5, 7, 3, 3, 2, 1, 1.5, 4, 2, 1, 0.4, 2, 1, 0.7, 2],
+    "angular-edit": [7, 8, 1, 1, 1, 0, 0, 0, 0, 0, 0.6, 0, 0.7, 0, 3],
+    "atom-mol": [2, 8, 5, 4, 2, 2.5, 0, 0, 0, 0, 0.3, 0, 1.5, 1, 1.5],
+    "transform": [0.5, 3, 0, 0, 0, 0, 2, 8, 0, 0, 0, 5, 0, 0, 0],
+    "tables": [0.5, 5, 0, 0, 0, 0, 0, 0, 5, 3, 0, 0, 0, 0, 0],
 }
 SHARE = {"mixed": 0.40, "angular-edit": 0.20, "atom-mol": 0.20, "transform": 0.12, "tables": 0.08}
 COST = {"mixed": 1.0, "angular-edit": 0.8, "atom-mol": 1.6, "transform": 0.4, "tables": 0.3}
@@ -132,6 +145,13 @@ def cases(tier, seed):
                 out.append(("aliasing-witness", {"method": m, "attr": attr, "first_cache": first_cache, "hid": 60000 + i}, 1e9))
                 i += 1
     out.append(("recorded-not-decided", {"hid": 60100}, 1e8))
+    j = 0
+    for m in METHODS:
+        for warm in ("supported", "unsupported", "default"):
+            for via in ("ang", "atom"):
+                for k in range(1 if tier == "quick" else 8):
+                    out.append(("size-overrides-degree", {"method": m, "warm": warm, "via": via, "k": k, "hid": 62000 + j}, 30.0))
+                    j += 1
     nrep = 6 if tier == "quick" else 60
     j = 0
     for cls in SESSION_CLASSES:
@@ -172,6 +192,18 @@ def setup(ctx):
     for t in ("bragg", "cambridge", "alvarez"):
         _cov_snapshot[t] = np.array(get_cov_radii(np.arange(1, 87), t), dtype=float)
         _cov_snapshot[t].setflags(write=False)
+    rows = []
+    for m in METHODS:
+        rows += [(m, d, s) for d, s in _pool(m, SIZE_CAP_ANG[m])]
+        r50 = tuple(int(v) for v in datafiles.resolve(m, degree=50))
+        if (m,) + r50 not in rows:
+            rows.append((m,) + r50)
+    cold = H.cold_reference(rows)
+    bad = [k for k in rows if cold[k][:2] != (k[1], k[2])]
+    if bad:
+        # a COLD request by size does not give the supported row of that size: C12's subject, and no reference for C19
+        raise RuntimeError(f"cold-process reference reports other rows than requested for {bad[:3]}")
+    ctx.count("cold-process-reference-rows", len(rows))
     H.install_angular_monitor(ctx)
 
 
@@ -256,10 +288,17 @@ class History:
         for cache in order:
             subj = f"AngularGrid[{method}] cache={'on' if cache else 'off'}"
             with self.guard(subj) as gd:
-                if self.rng.random() < 0.7:
+                u = self.rng.random()
+                if u < 0.6:
                     g = AngularGrid(degree=int(deg), method=method, cache=cache)
-                else:
+                elif u < 0.8:
                     g = AngularGrid(size=int(size), method=method, cache=cache)
+                else:
+                    # size together with an explicit degree that was constructed (and possibly cached) earlier: size decides
+                    others = [k[1] for k in self.touched if k[0] == method]
+                    dq = int(others[int(self.rng.integers(len(others)))]) if others else int(deg)
+                    g = AngularGrid(degree=dq, size=int(size), method=method, cache=cache)
+                    self.ctx.hit("request:size-with-explicit-degree")
             if not gd.ok:
                 continue
             self.ctx.hit("observe:cache-on" if cache else "observe:cache-off")
@@ -764,12 +803,12 @@ class History:
             rows = [datafiles.resolve(method, degree=d)] * n
         elif mode == "sizes":
             req = [int(v) for v in rng.integers(1, smax + 1, n)]
-            kw["degrees"] = None
+            kw["degrees"] = None if rng.random() < 0.6 else [int(v) for v in rng.integers(0, dmax + 1, n)]  # ignored when sizes are given
             kw["sizes"] = req if rng.random() < 0.5 else np.array(req)
             rows = [datafiles.resolve(method, size=s) for s in req]
         elif mode == "size1":
             s = int(rng.integers(1, smax + 1))
-            kw["degrees"] = None
+            kw["degrees"] = None if rng.random() < 0.6 else [int(rng.integers(0, dmax + 1))]  # ignored when sizes are given
             kw["sizes"] = [s]
             rows = [datafiles.resolve(method, size=s)] * n
         else:
@@ -1282,6 +1321,87 @@ class History:
                 why = f"in-place change of the argument array ({which})"
             self.session_sweep(ss, why)
 
+    def op_ang_size_degree(self, method=None, wkind=None, via=None, exhaustive=False):
+        """Warm the cache with exactly one degree of a method (AngularGrid(cache=True) or AtomGrid shells), then request
+        grids by ``size=`` alone (default degree) and by ``size=`` TOGETHER with an explicit degree (the warmed one, its
+        resolved value, another supported / unsupported one), cache on and off: the size-resolved shipped grid must come back."""
+        from grid.angular import AngularGrid
+        from grid.atomgrid import AtomGrid
+        from grid.basegrid import OneDGrid
+
+        rng, ctx = self.rng, self.ctx
+        method = method or METHODS[int(rng.integers(4))]
+        rows = _pool(method, SIZE_CAP_ANG[method])
+        degs = [d for d, _ in rows]
+        dmax, smax = rows[-1]
+        wkind = wkind or ["supported", "unsupported", "default"][int(rng.integers(3))]
+        via = via or ("ang" if rng.random() < 0.6 else "atom")
+        if wkind == "unsupported":
+            cand = [d for d in range(0, dmax) if d not in degs]
+            if not cand:
+                wkind = "supported"
+            else:
+                dw = int(cand[int(rng.integers(len(cand)))])
+        if wkind == "supported":
+            dw = int(degs[int(rng.integers(len(degs)))])
+        if wkind == "default":
+            dw = 50
+        wd, ws = (int(v) for v in datafiles.resolve(method, degree=dw))
+        subj = f"AngularGrid[{method}] warm-up"
+        with self.guard(subj) as gd:
+            if via == "ang":
+                if wkind == "default" and method == "lebedev" and rng.random() < 0.5:
+                    g0 = AngularGrid()
+                else:
+                    g0 = AngularGrid(degree=dw, method=method, cache=True)
+                ctx.hit("warmup:via-AngularGrid")
+            else:
+                rg = OneDGrid(np.array([0.5, 1.5]), np.array([0.3, 0.7]), (0, np.inf))
+                at = AtomGrid(rg, degrees=[dw], method=method)
+                at.get_shell_grid(0)  # shell extraction constructs (and caches) that degree once more
+                g0 = None  # the shells were compared by the post-condition on AngularGrid.__init__
+                ctx.hit("warmup:via-AtomGrid-shells")
+        if not gd.ok:
+            return
+        if g0 is not None:
+            H.check_request(ctx, subj, g0, method, wd, ws, detail={"hist": self.hid, "op": self.op})
+        self.touched[(method, wd, ws)] = True
+        ctx.hit("op:ang_size_degree")
+        ctx.count(f"class:size-degree:{method}:warm={wkind}:via={via}")
+        self.log.append(f"size_degree({method},{wkind},{via})")
+        # requests
+        other_sup = int(degs[int(rng.integers(len(degs)))])
+        other_uns = int(rng.integers(0, dmax + 1))
+        if exhaustive:
+            sizes = sorted({1, int(rows[0][1]), int(rows[len(rows) // 3][1]) + 1, int(rng.integers(1, smax + 1)), int(rng.integers(1, smax + 1)), ws})
+            plan = [(dk, sq, c) for sq in sizes for dk in ("same", "resolved", "omitted", "other-supported", "other-unsupported") for c in (True, False)]
+            plan = [plan[int(i)] for i in rng.permutation(len(plan))]
+        else:
+            kinds = ["same", "resolved", "omitted", "other-supported", "other-unsupported"]
+            plan = [(kinds[int(rng.integers(5))], int(rng.integers(1, smax + 1)), bool(rng.random() < 0.5)) for _ in range(int(rng.integers(2, 5)))]
+        last = None
+        for dk, sq, cache in plan:
+            d, s = (int(v) for v in datafiles.resolve(method, size=sq))
+            dq = {"same": dw, "resolved": wd, "omitted": None, "other-supported": other_sup, "other-unsupported": other_uns}[dk]
+            subj = f"AngularGrid[{method}] size+degree:{dk} cache={'on' if cache else 'off'}"
+            with self.guard(subj) as gd:
+                if dq is None:
+                    g = AngularGrid(size=sq, method=method, cache=cache)
+                    ctx.hit("request:size-alone-default-degree")
+                elif rng.random() < 0.5:
+                    g = AngularGrid(dq, size=sq, method=method, cache=cache)
+                    ctx.hit("request:size-with-explicit-degree")
+                else:
+                    g = AngularGrid(degree=np.int64(dq) if rng.random() < 0.3 else dq, size=np.int64(sq) if rng.random() < 0.3 else sq, method=method, cache=cache)
+                    ctx.hit("request:size-with-explicit-degree")
+            if not gd.ok:
+                continue
+            H.check_request(ctx, subj, g, method, d, s, detail={"request": {"degree": dq, "size": sq}, "warmed_degree": dw, "warmed_via": via, "hist": self.hid, "op": self.op})
+            self.touched[(method, d, s)] = True
+            last = (g, d, s)
+        if last is not None:
+            self.add({"kind": "ang", "obj": last[0], "method": method, "deg": last[1], "size": last[2], "label": f"AngularGrid[{method}]"})
+
     def op_localgrid(self):
         """LocalGrid objects (MolGrid.get_atomic_grid / MolGrid[i] / Grid.get_localgrid): their arrays, centre and indices
         become edit targets; they share state with their parent by design (same group)."""
@@ -1405,6 +1525,14 @@ def run_case(ctx, family, params):
         return _witness(ctx, params)
     if family == "recorded-not-decided":
         return _recorded(ctx, params)
+    if family == "size-overrides-degree":
+        h = History(ctx, params["hid"], family)
+        h.op += 1
+        h.op_ang_size_degree(method=params["method"], wkind=params["warm"], via=params["via"], exhaustive=True)
+        h.op += 1
+        h.finish()
+        ctx.case_note("ops", h.log[:12])
+        return None
     if family == "transform-reuse":
         h = History(ctx, params["hid"], family)
         for _ in range(3):
